@@ -18,8 +18,8 @@ ID = "C04"
 LEVEL = "translation_validation"
 TECHNIQUE = "trajectory differential (reference Euler interpreter + SD-DSL twin) with a memo-key trace monitor on the generated model"
 RULE = ("generated XMILE structures: 1-3 stocks with 0-3 inflows and 0-3 outflows each, non-negative and bidirectional flows, auxiliaries, "
-        "graphical functions in <xscale> and <xpts> form, flow equations incl. unparenthesised chains (a - b + c, a / k * c); every fifth document carries the structure a second time as a named module with other constants and initial values; run specs dt in {1,.5,.25,.125,.1,.05,.2,.3,.01} and reciprocal dt in {3,4,7,10}, start in {0,1,5,0.5,0.25}, "
-        "4-60 steps; read through equation(name,t) for every grid time and (every 4th case) through bptk.run_scenarios with a 'source' manager. "
+        "graphical functions in <xscale> and <xpts> form, flow equations incl. unparenthesised chains (a - b + c, a / k * c); every fifth document carries the structure a second time as a named module with other constants and initial values; run specs dt in {1,.5,.25,.125,.1,.05,.2,.3,.01} and reciprocal dt in {3,4,6,7,9,10,11,12,13}, start in {0,1,5,0.5,0.25}, "
+        "4-60 steps; read through equation(name,t) for every grid time and (every 3rd case) through bptk.run_scenarios with a 'source' manager. "
         "programs = documents compiled; distinct_nontrivial = distinct (dt, start, #stocks, flow kinds, gf forms) combinations whose stocks "
         "actually move and where a non-negative flow clamps at least once or a stock has >=2 inflows/outflows.")
 ASSUMPTIONS = ["stocks are not declared non-negative (only flows are)", "values compared at 1e-9 relative; memo keys must lie within 1e-9 of a grid point"]
@@ -27,12 +27,12 @@ REQUIRED = {"documents_with_modules": 5, "documents_compiled": 30, "trajectory_c
 BUDGET_S = {"quick": 110, "thorough": 1500}
 
 DTS = [("0.3", None), ("0.2", None), ("1", None), ("0.5", None), ("0.25", None), ("0.125", None), ("0.1", None), ("0.05", None), ("0.2", None), ("0.01", None),
-       ("1/3", 3), ("1/4", 4), ("1/7", 7), ("1/10", 10)]
+       ("1/3", 3), ("1/4", 4), ("1/7", 7), ("1/10", 10), ("1/6", 6), ("1/11", 11), ("1/12", 12), ("1/9", 9), ("1/13", 13)]
 
 
 def gen_cases(tier, seed):
     n = 110 if tier == "quick" else 4500
-    return [dict(seed=seed * 65537 + i, via_bptk=(i % 4 == 0)) for i in range(n)]
+    return [dict(seed=seed * 65537 + i, via_bptk=(i % 3 == 0)) for i in range(n)]
 
 
 def gen_structure(rng):
